@@ -10,6 +10,14 @@ NEAR = [('{"k":{},"n":1}', '{"k":{"n":1}}'), ('[[],1]', '[[1]]'), ('[1,[2]]', '[
         ('"a\\u0000b"', '"a"'), ('[0]', '[false]'), ('{"a":1,"b":2}', '{"a":1,"b":2,"c":null}'), ('[[1,2],[3]]', '[[1],[2,3]]'), ('["ab","c"]', '["a","bc"]')]
 
 
+def sorted_members(v):
+    if v[0] == "obj":
+        return ("obj", sorted(((k, sorted_members(x)) for k, x in v[1]), key=lambda kv: kv[0]))
+    if v[0] == "arr":
+        return ("arr", [sorted_members(x) for x in v[1]])
+    return v
+
+
 def gen_random(cs, rnd, n):
     for i in range(n):
         cfg = PL.mkcfg(unique=True)
@@ -39,6 +47,9 @@ def gen_random(cs, rnd, n):
         if rnd.random() < 0.5:
             rows += [("num", rnd.choice(["1", "1.0", "1e0", "10e-1", "100e-2", "2", "2.0", "0.5", "5e-1", "50E-2", "0", "0.0", "0e0", "0E3", "0.00"])) for _ in range(rnd.randrange(2, 8))]
             rnd.shuffle(rows)
+        # two rows with the same members in another order are outside the quantifier (they are `=` but --unique tells them apart: the known
+        # member-order finding the property excludes); independent random rows can collide that way, so every object lists its members in one order
+        rows = [sorted_members(r) for r in rows]
         PC.add_rel(cs, "unique", cfg, PC.variant(cfg, unique=False), rows, rnd)
         cs.recipes[-1]["runs"][0]["stdin"] = cs.recipes[-1]["runs"][1]["stdin"] = hexs(PL.input_bytes(rows, rnd))   # escapes / spellings vary
         if i % 3 == 0:
